@@ -37,7 +37,16 @@ pub const GROUPS: &[(&str, &[(&str, &[Sel])])] = &[
         "Common",
         &[
             ("renet/src/packet.rs", &[Sel::Const("SLICE_SIZE"), Sel::Struct("Slice"), Sel::Enum("Packet")]),
-            ("renetcode/src/lib.rs", &[Sel::Const("NETCODE_VERSION_INFO"), Sel::Const("NETCODE_USER_DATA_BYTES")]),
+            (
+                "renetcode/src/lib.rs",
+                &[
+                    Sel::Const("NETCODE_VERSION_INFO"),
+                    Sel::Const("NETCODE_USER_DATA_BYTES"),
+                    Sel::Const("NETCODE_CONNECT_TOKEN_PRIVATE_BYTES"),
+                    Sel::Const("NETCODE_CHALLENGE_TOKEN_BYTES"),
+                    Sel::Const("NETCODE_CONNECT_TOKEN_XNONCE_BYTES"),
+                ],
+            ),
             ("renetcode/src/client.rs", &[Sel::Enum("DisconnectReason")]),
             ("renetcode/src/token.rs", &[Sel::Enum("TokenGenerationError")]),
             ("renetcode/src/error.rs", &[Sel::Enum("NetcodeError")]),
@@ -138,6 +147,21 @@ pub const GROUPS: &[(&str, &[(&str, &[Sel])])] = &[
             ],
         )],
     ),
+    // reliable RECEIVE channel
+    (
+        "RecvRel",
+        &[(
+            "renet/src/channel/reliable.rs",
+            &[
+                Sel::Enum("ReliableOrder"),
+                Sel::Struct("ReceiveChannelReliable"),
+                Sel::Method("ReceiveChannelReliable", "new"),
+                Sel::Method("ReceiveChannelReliable", "process_message"),
+                Sel::Method("ReceiveChannelReliable", "process_slice"),
+                Sel::Method("ReceiveChannelReliable", "receive_message"),
+            ],
+        )],
+    ),
     (
         "Acks",
         &[(
@@ -184,6 +208,20 @@ pub const GROUPS: &[(&str, &[(&str, &[Sel])])] = &[
             ],
         )],
     ),
+    // renetcode packets: body reader / writer (the type shares its simple name with renet's `Packet`)
+    (
+        "NcPacket",
+        &[(
+            "renetcode/src/packet.rs",
+            &[
+                Sel::Enum("Packet"),
+                Sel::Method("Packet", "packet_type"),
+                Sel::Method("Packet", "id"),
+                Sel::Method("Packet", "write"),
+                Sel::Method("Packet", "read"),
+            ],
+        )],
+    ),
 ];
 
 pub fn work_list() -> Vec<WorkItem> {
@@ -212,6 +250,12 @@ pub const WHILE_FUEL: &[(&str, &str, &[&str])] = &[
         "renet/src/channel/unreliable.rs",
         "SendChannelUnreliable::get_packets_to_send",
         &["self.unreliable_messages.len() + 1"],
+    ),
+    // every round removes one element of the set
+    (
+        "renet/src/channel/reliable.rs",
+        "ReceiveChannelReliable::receive_message",
+        &["received_messages.len() + 1"],
     ),
 ];
 
